@@ -129,3 +129,20 @@ for entry, n, pd, slug in (("solve_determ", 1, pdict_rbeta, "one-iteration"), ("
          dict(base, kind="param", sim=dict(sim, np_seed=31337), pdict=pd, grid=grid, form="tuple", n=n,
               A={"entry": entry, "n": n, "n_form": "int"}, B={"entry": "simulate_param" if entry == "solve_determ" else "solve_determ", "n": 2},
               grid_form="array", prep=["none", "same"], seed2=31338, seed3=31339))
+
+# seeded C16-d1 (fourth round): the mean trajectory taken block-wise (100 runs at a time, block means averaged unweighted) - `Y` is the
+# mean of the returned runs for ANY iteration count; counts beyond 100 that are not a multiple of 100 (MEAN cases of c16)
+for entry, n, pd, slug in (("simulate_param", 130, pdict_frozen, "130-iterations"), ("solve_determ", 250, pdict_tuple, "250-iterations")):
+    dump("C16", "seeded-C16-d1-mean-of-more-than-100-runs-%s-%s" % (entry, slug),
+         dict(base, kind="mean", sim=dict(sim, np_seed=27182), pdict=pd, grid=[4.0, 8.0], grid_shape="after_t0", form="frozen" if pd is pdict_frozen else "tuple", n=n,
+              A={"entry": entry, "n": n, "n_form": "int"}, grid_form="array"))
+
+# seeded C05-d1 (fourth round): "no event can fire any more" decided with np.allclose(rates, 0) - a path is frozen when every event rate is
+# <= 1e-8 although events are possible.  (1) the b1 chain in another UNIT OF TIME (rates * 2^-30 ~ 9.3e-10, times * 2^30: 1 per 34 years timed
+# in seconds): the occupancy law is the same numbers; (2) a chain whose fast stage (2^-20) is exhausted while a slow one (2^-30) remains
+U = 2.0 ** -30
+dump("C05", "seeded-C05-d1-slow-process-timed-in-seconds",
+     c05.rescale(dict(chain, families=[dict(fam[0], n=8)], x0=[8, 0, 0], params={"k0AB": 1.0, "k0BC": 0.5}, times=[1.25], runs=1000, np_seed=20260936, chunk=250), U))
+dump("C05", "seeded-C05-d1-fast-stage-exhausted-slow-stage-left",
+     dict(chain, families=[dict(fam[0], n=6)], x0=[6, 0, 0], params={"k0AB": 2.0 ** -20, "k0BC": 2.0 ** -30}, times=[2.0 ** 30], horizon_kind="np_f64", runs=1000,
+          np_seed=20260937, chunk=500, x0_form="list_int"))
